@@ -1150,7 +1150,7 @@ def gen_cases(rng, tier, scale=1.0):
         for _ in range(max(1, int((1 if quick else 2) * scale))):
             add_twin("A", sname, 2, max_pre=max_pre, cap=100 if quick else 400)
     for sname in (rng.sample(TWIN_SHAPES, 4) if quick else TWIN_SHAPES):
-        add_twin("B", sname, 2, max_pre=max_pre, nsched=20 if quick else 50)
+        add_twin("B", sname, 2, max_pre=max_pre, nsched=20 if quick else 40)
     # fixed operation mixes (values still random): cold-cache serialization races, scalar assignment, wrappers
     for sname, ops in CANONICAL_B:
         ths = []
@@ -1162,9 +1162,9 @@ def gen_cases(rng, tier, scale=1.0):
             else:
                 ths.append({"op": op, "kw": {g: gen_value(rng, sname, g, bad=0.0 if op == "serialize" else 0.1) for g in fs}})
         cases.append({"stream": "B", "shape": sname, "threads": ths, "sseed": rng.randrange(1 << 30),
-                      "max_pre": max_pre, "nsched": 40 if quick else 200})
+                      "max_pre": max_pre, "nsched": 40 if quick else 150})
     reps_b = max(1, int((1 if quick else 4) * scale))
     for sname in ALL_SHAPES:
         for _ in range(reps_b):
-            add("B", sname, 3 if rng.random() < 0.2 else 2, max_pre=max_pre, nsched=20 if quick else 80)
+            add("B", sname, 3 if rng.random() < 0.2 else 2, max_pre=max_pre, nsched=20 if quick else 60)
     return cases
